@@ -193,6 +193,14 @@ def run(P, rep, tier):
         else:
             rep.ok(r6, call)
     rep.floor(r6, 3)
+    len_ = {}
+    for seq, res in collected:
+        for call, handler, loc_ in res.get('lenient_encode', []):
+            len_.setdefault((call, handler), (loc_, seq))
+    for (call, handler), (loc_, seq) in sorted(len_.items()):
+        rep.violation(r6, 'unencodable-text-accepted:%s:%s' % (call, handler), loc_,
+                      '%s encodes its text with the error handler %r: text the section encoding cannot represent is accepted and '
+                      'written altered instead of being rejected' % (call, handler), path=[call], witness=fmt_seq(seq))
 
     # ---- R3 append-only ------------------------------------------------------------
     r3 = rep.rule('C09-R3', 'every operation on the writer\'s stream is write()', reference=5)
